@@ -1,1 +1,286 @@
-/- C15 property theorems (stub: not built yet) -/
+import ThriftVerif.Lib.ReflectLemmas
+import ThriftVerif.Gen.SchemaCheck
+import ThriftVerif.Generated.C15Schema
+/-
+  C15 — reflection descriptors describe the IDL exactly.
+  Property theorems over `Lib/Reflect` (model of /repo/thrift_reflection) and the shared codec `Gen.Std`
+  at the schema regenerated from descriptor.thrift (`Generated.C15Schema.prog`).
+-/
+namespace Props.C15
+open Reflect Gen Gen.Std
+
+/-! ### tie: the regenerated schema and tables are the ones the model assumes -/
+
+/-- the schema parsed from descriptor.thrift (and cross-checked by the translator against the StructMeta
+bytes registered in descriptor.go and the Go struct tags) is the schema `gFile`/`gStruct`/… lay objects out for -/
+theorem schema_agrees : Generated.C15Schema.prog = Reflect.descProg := rfl
+
+/-- the regenerated schema satisfies the hypotheses of the shared round-trip theorem -/
+theorem schema_ok : SchemaOK Generated.C15Schema.prog := schemaOkB_sound _ (by decide)
+
+/-- ConstValueType numbering: descriptor.thrift = descriptor.go = the model's tags -/
+theorem const_value_type_numbering :
+    Generated.C15Schema.constValueType = cvtTable ∧ Generated.C15Schema.constValueTypeGo = cvtTable ∧
+    cvtTable.map Prod.snd = [cvtDOUBLE, cvtINT, cvtSTRING, cvtBOOL, cvtLIST, cvtMAP, cvtIDENTIFIER] := by decide
+
+theorem requiredness_strings :
+    Generated.C15Schema.reqStrings = [Req.dflt.str, Req.required.str, Req.optional.str] := by decide
+
+theorem uuid_key_agrees : Generated.C15Schema.uuidKey = uuidKey := by decide
+
+/-! ### describe_faithful -/
+
+/- Full statement (FALSE on the model and on the code, see the two witnesses below):
+     ∀ f : File, factsOf (describe f) = forget f -/
+
+/-- **describe_faithful (partial)**: for every file whose include base names, namespace languages and
+annotation keys are pairwise distinct, the descriptor states exactly the facts the IDL states — names, field
+ids, requiredness, type expressions with key/value types, defaults and constant values, enum numbers,
+annotations with all values, comments, base service, oneway, includes, namespaces. Unbounded in the number
+and nesting of definitions. -/
+theorem describe_faithful_partial (f : File) (h : f.Canonical) : factsOf (describe f) = forget f :=
+  facts_file f h
+
+def exField : Field where
+  name := [102]
+  id := 1
+  req := Reflect.Req.optional
+  ty := TyE.mk [105, 51, 50] TyO.none TyO.none
+  dflt := some (CV.int 3)
+  annos := [⟨[97], [[49], [50]]⟩, ⟨[98], [[]]⟩]
+  comments := []
+
+def exFile : File where
+  filename := [109]
+  includes := [[97, 46, 116, 104, 114, 105, 102, 116], [100, 47, 98, 46, 116, 104, 114, 105, 102, 116]]
+  namespaces := [⟨[103, 111], [120]⟩, ⟨[112, 121], [121]⟩]
+  typedefs := []
+  consts := []
+  enums := []
+  structs := [{ name := [83], fields := [exField], annos := [], comments := [] }]
+  unions := []
+  exceptions := []
+  services := []
+
+/-- the hypotheses are satisfiable -/
+example : exFile.Canonical := by
+  constructor <;> simp [exFile, exField, StructLike.ok, Field.ok, AnnosOK, baseName, trimSuffix, lastSeg, dotThrift]
+
+/-- two includes with equal base name in different directories (`d1/base.thrift`, `d2/base.thrift`) -/
+def wInclude : File :=
+  { filename := [109], includes := [[100, 49, 47, 98, 97, 115, 101, 46, 116, 104, 114, 105, 102, 116],
+                                    [100, 50, 47, 98, 97, 115, 101, 46, 116, 104, 114, 105, 102, 116]],
+    namespaces := [], typedefs := [], consts := [], enums := [], structs := [], unions := [], exceptions := [], services := [] }
+
+/-- **negative witness 1**: the `Includes` map is keyed by base name, the first include is lost -/
+theorem describe_loses_include :
+    (forget wInclude).includes [100, 49, 47, 98, 97, 115, 101, 46, 116, 104, 114, 105, 102, 116] = true ∧
+    (factsOf (describe wInclude)).includes [100, 49, 47, 98, 97, 115, 101, 46, 116, 104, 114, 105, 102, 116] = false ∧
+    (forget wInclude).includeOf [98, 97, 115, 101] ≠ (factsOf (describe wInclude)).includeOf [98, 97, 115, 101] := by decide
+
+/-- `namespace go a` and `namespace go b` in one file -/
+def wNamespace : File :=
+  { filename := [109], includes := [], namespaces := [⟨[103, 111], [97]⟩, ⟨[103, 111], [98]⟩],
+    typedefs := [], consts := [], enums := [], structs := [], unions := [], exceptions := [], services := [] }
+
+/-- **negative witness 2**: the `Namespaces` map is keyed by language, the first statement is lost -/
+theorem describe_loses_namespace :
+    (forget wNamespace).namespaces [103, 111] = some [97] ∧ (factsOf (describe wNamespace)).namespaces [103, 111] = some [98] := by
+  decide
+
+/-- **annotations with all values**: whatever `(k = "v", …)` list the source holds (keys may repeat), the parser's
+`Annotations.Append` yields pairwise distinct keys (the hypothesis of `describe_faithful_partial`) and the
+descriptor's annotation map gives, for every key, exactly the values written for it, in source order. -/
+theorem annotations_keep_all_values (ps : List (Str × Str)) (k : Str) :
+    AnnosOK (annosOfPairs ps) ∧
+    mapGet (annoMap (annosOfPairs ps)) k = (if valuesOf ps k = [] then none else some (valuesOf ps k)) := by
+  refine ⟨annosOfPairs_ok ps, ?_⟩
+  rw [annoFacts_annoMap _ (annosOfPairs_ok ps)]
+  have h := annoFacts_fold ps k []
+  show annoFacts (ps.foldl (fun as p => annoAppend as p.1 p.2) []) k = _
+  rw [h]
+  simp [extend, annoFacts]
+
+/-- constant values of every shape are recoverable from their descriptors -/
+theorem const_value_faithful (c : CV) : cvOfDesc (descCV c) = c := cvOfDesc_descCV c
+
+/-- type expressions with key/value types are recoverable from their descriptors -/
+theorem type_expr_faithful (p : Str) (t : TyE) : tyOfDesc (descTy p t) = t := tyOfDesc_descTy p t
+
+/-! ### descriptor_roundtrip -/
+
+/-- the run-time check of well-typedness (evaluated by the model driver on every descriptor of the
+correspondence) implies the hypothesis `WT` of the shared round-trip theorem -/
+theorem welltyped_check_sound (S : List StructDef) (ty : Ty) (v : GoVal) (h : wtB S ty v = true) : WT S ty v :=
+  wtB_sound S v ty h
+
+/-- **descriptor_roundtrip**: meta.Marshal/Unmarshal as the Thrift binary codec driven by the type meta of
+descriptor.thrift — the instance of the shared round-trip theorem `Gen.Std.rt` at the regenerated schema.
+For every file descriptor that Go can hold (`wtB`: ints in range, sizes < 2^31, map keys distinct), in whatever
+order the maps are iterated (= the order of the association lists), `Unmarshal` accepts the bytes of `Marshal`
+and the object it builds marshals to exactly the same bytes (same fields, same entries). -/
+theorem descriptor_roundtrip (fd : FileDesc) (bs : Bytes)
+    (hwt : wtB Generated.C15Schema.prog.structs (.struct sFileDescriptor) (gFile fd) = true)
+    (h : marshal Generated.C15Schema.prog fd = .ok bs) :
+    ∃ obj', unmarshalVal Generated.C15Schema.prog bs = some obj' ∧
+      Gen.Std.write (noVal Generated.C15Schema.prog) sFileDescriptor obj' = .ok bs := by
+  simp only [marshal, write, Res.bind_eq_ok] at h
+  obtain ⟨w, hw, hb⟩ := h
+  cases hb
+  have hw0 := toW_noVal _ _ (.struct sFileDescriptor) w hw
+  have hd : w.depth ≤ (Wire.encW w).length + 1 := by have := depth_le_len w; omega
+  obtain ⟨v', hr, ht, _, _⟩ := rt (noVal Generated.C15Schema.prog) schema_ok rfl _ (.struct sFileDescriptor) w
+    ((Wire.encW w).length + 1) [] (wtB_sound _ _ _ hwt) hw0 hd
+  refine ⟨v', ?_, ?_⟩
+  · unfold unmarshalVal Gen.Std.read
+    simp only [List.append_nil] at hr
+    have : (noVal Generated.C15Schema.prog).structs = Generated.C15Schema.prog.structs := rfl
+    rw [this] at hr
+    simp [hr]
+  · simp [write, ht, bind]
+
+
+/-- the hypothesis is satisfiable (and the checker runs in the kernel): the descriptor of `exFile` -/
+example : wtB Generated.C15Schema.prog.structs (.struct sFileDescriptor) (gFile (describe exFile)) = true := by decide
+
+/-! ### lookup_finds -/
+
+/-- **RegisterAST registers the whole include closure**: for an AST whose files are identified by their
+Filename, after `RegisterAST` every file reachable through includes (at any depth, through diamonds) is
+registered under its Filename with its own (stamped) descriptor — by induction over the include structure. -/
+theorem register_closed (uuid : Str) (root b : Ast) (hc : Coh root.subs) (hb : b ∈ root.subs) :
+    mapGet (regAST uuid root []) b.file.filename = some (registerUUID uuid (describe b.file)) :=
+  regAST_registers uuid root hc b hb
+
+/- Full statement (FALSE when the looking file has two includes with equal base name, witness below):
+   the same without `hnd`. -/
+
+/-- **lookup_finds (partial)**: after `RegisterAST(root)`, from any reachable file `b` whose include base names
+are pairwise distinct, `LookupStruct/Union/Exception/Enum/Typedef/Const/Service(name, b.Filename)` return the
+(registry-stamped) descriptor of exactly the definition the possibly qualified `name` denotes in the IDL — the
+file's own definition for an unqualified name, the definition in the include with that prefix for `prefix.Name` —
+and nil when the IDL defines no such thing. -/
+theorem lookup_finds_partial (W : World) (uuid : Str) (root b : Ast) (name : Str)
+    (huuid : uuid ≠ []) (hreg : mapGet W.regs uuid = some (regAST uuid root []))
+    (hc : Coh root.subs) (hwf : WFIncl root.subs) (hne : ∀ d ∈ root.subs, d.file.filename ≠ [])
+    (hb : b ∈ root.subs) (hnd : (b.file.includes.map baseName).Nodup) (hname : (parseAlias name).2 ≠ []) :
+    let gd := mapGet W.regs uuid
+    let p := b.file.filename
+    lookupIn W gd p name lookStruct =
+      (denote b name File.structs StructLike.name).map (fun pd => uuidStruct uuid (descStruct pd.1 pd.2)) ∧
+    lookupIn W gd p name lookUnion =
+      (denote b name File.unions StructLike.name).map (fun pd => uuidStruct uuid (descStruct pd.1 pd.2)) ∧
+    lookupIn W gd p name lookException =
+      (denote b name File.exceptions StructLike.name).map (fun pd => uuidStruct uuid (descStruct pd.1 pd.2)) ∧
+    lookupIn W gd p name lookEnum =
+      (denote b name File.enums Enum.name).map (fun pd => uuidEnum uuid (descEnum pd.1 pd.2)) ∧
+    lookupIn W gd p name lookTypedef =
+      (denote b name File.typedefs Typedef.alias).map (fun pd => uuidTypedef uuid (descTypedef pd.1 pd.2)) ∧
+    lookupIn W gd p name lookConst =
+      (denote b name File.consts Const.name).map (fun pd => uuidConst uuid (descConst pd.1 pd.2)) ∧
+    lookupIn W gd p name lookService =
+      (denote b name File.services Service.name).map (fun pd => uuidService uuid (descService pd.1 pd.2)) := by
+  refine ⟨?_, ?_, ?_, ?_, ?_, ?_, ?_⟩
+  · exact lookup_generic W uuid root b name lookStruct File.structs StructLike.name (fun p s => uuidStruct uuid (descStruct p s)) (look_struct uuid) huuid hreg hc hwf hne hb hnd hname
+  · exact lookup_generic W uuid root b name lookUnion File.unions StructLike.name (fun p s => uuidStruct uuid (descStruct p s)) (look_union uuid) huuid hreg hc hwf hne hb hnd hname
+  · exact lookup_generic W uuid root b name lookException File.exceptions StructLike.name (fun p s => uuidStruct uuid (descStruct p s)) (look_exception uuid) huuid hreg hc hwf hne hb hnd hname
+  · exact lookup_generic W uuid root b name lookEnum File.enums Enum.name (fun p s => uuidEnum uuid (descEnum p s)) (look_enum uuid) huuid hreg hc hwf hne hb hnd hname
+  · exact lookup_generic W uuid root b name lookTypedef File.typedefs Typedef.alias (fun p s => uuidTypedef uuid (descTypedef p s)) (look_typedef uuid) huuid hreg hc hwf hne hb hnd hname
+  · exact lookup_generic W uuid root b name lookConst File.consts Const.name (fun p s => uuidConst uuid (descConst p s)) (look_const uuid) huuid hreg hc hwf hne hb hnd hname
+  · exact lookup_generic W uuid root b name lookService File.services Service.name (fun p s => uuidService uuid (descService p s)) (look_service uuid) huuid hreg hc hwf hne hb hnd hname
+
+def emptyFile (n : Str) (incs : List Str) (ss : List StructLike) : File :=
+  { filename := n, includes := incs, namespaces := [], typedefs := [], consts := [], enums := [], structs := ss,
+    unions := [], exceptions := [], services := [] }
+
+def pD1 : Str := [100, 49, 47, 98, 97, 115, 101, 46, 116, 104, 114, 105, 102, 116]
+def pD2 : Str := [100, 50, 47, 98, 97, 115, 101, 46, 116, 104, 114, 105, 102, 116]
+def sS : StructLike := { name := [83], fields := [], annos := [], comments := [] }
+
+/-- main includes d1/base.thrift and d2/base.thrift, both define struct S -/
+def wRoot : Ast := .mk (emptyFile [109] [pD1, pD2] []) [.mk (emptyFile pD1 [] [sS]) [], .mk (emptyFile pD2 [] [sS]) []]
+
+def wWorld : World := ({ dflt := [], regs := [] } : World).registerAST [85] wRoot
+
+/-- **negative witness 3**: with two includes of equal base name, `base.S` looked up from main is the `S` of the
+*last* such include, while in the IDL it is the `S` of the first -/
+theorem lookup_collision_witness :
+    ((lookupIn wWorld (mapGet wWorld.regs [85]) [109] [98, 97, 115, 101, 46, 83] lookStruct).map (·.filepath)) = some pD2 ∧
+    ((denote wRoot [98, 97, 115, 101, 46, 83] File.structs StructLike.name).map (·.1)) = some pD1 := by decide
+
+/-- lookups by field name and by field id return the descriptor of the first field with that name / id -/
+theorem field_lookup_finds (p : Str) (s : StructLike) (n : Str) (i : Int) :
+    (descStruct p s).fieldByName n = (s.fields.find? (fun f => f.name = n)).map (descField p) ∧
+    (descStruct p s).fieldById i = (s.fields.find? (fun f => f.id = i)).map (descField p) ∧
+    ∀ (sv : Service), (descService p sv).methodByName n = (sv.functions.find? (fun f => f.name = n)).map (descMethod p) :=
+  ⟨field_by_name p s n, field_by_id p s i, fun sv => method_by_name p sv n⟩
+
+/-- **negative witness 4** (RegisterAST mode): `registerGlobalUUID` never stamps the type descriptor of a constant,
+so `c.Type.GetStructDescriptor()` (and the other four) consult the *default* registry instead of the registry the
+constant lives in — whatever that registry holds. -/
+theorem const_type_unregistered {α : Type} (W : World) (uuid p : Str) (c : Const) (look : FileDesc → Str → Option α) :
+    (uuidConst uuid (descConst p c)).ty.getVia W look =
+      (if isContainer c.ty.1 || isBasic c.ty.1 then none
+       else lookupIn W (some W.dflt) p c.ty.1 look) := by
+  cases hc : c.ty with
+  | mk n k v =>
+    simp [TypeDesc.getVia, uuidConst, descConst, hc, descTy, TypeDesc.name, TypeDesc.extra, TypeDesc.filepath, globalOf_none]
+
+/-! ### gotype_bijection -/
+
+/- Full statement: every generated Go type maps to its own descriptor and back. The Go side (that the
+`reflect.Type`s of the generated types are pairwise distinct) is outside Lean — and false for typedefs, which
+thriftgo emits as Go type aliases (witness below). -/
+
+/-- **gotype_bijection (partial, registry model)**: if the type list of the generated file has one pairwise distinct
+entry per struct-like, enum and typedef (in the order `Structs ++ Unions ++ Exceptions`, `Enums`, `Typedefs`), then after
+`registerGoTypes` the i-th type maps to the i-th descriptor of its group, and the pairing descriptor ↔ type is
+positional (so it is a bijection). -/
+theorem gotype_bijection_partial {τ : Type} [DecidableEq τ] (fd : FileDesc) (tys : List τ) (hn : tys.Nodup)
+    (sl : List StructDesc) (hsl : sl = fd.structs ++ fd.unions ++ fd.exceptions)
+    (hl : tys.length = sl.length + fd.enums.length + fd.typedefs.length) :
+    (∀ (i : Nat) (t : τ), i < sl.length → tys[i]? = some t → byGoType (registerGoTypes fd tys).structOf t = sl[i]?) ∧
+    (∀ (i : Nat) (t : τ), i < fd.enums.length → tys[sl.length + i]? = some t →
+      byGoType (registerGoTypes fd tys).enumOf t = fd.enums[i]?) ∧
+    (∀ (i : Nat) (t : τ), i < fd.typedefs.length → tys[sl.length + fd.enums.length + i]? = some t →
+      byGoType (registerGoTypes fd tys).typedefOf t = fd.typedefs[i]?) := by
+  subst hsl
+  generalize hsl : fd.structs ++ fd.unions ++ fd.exceptions = sl at hl ⊢
+  have hreg : registerGoTypes fd tys =
+      { structOf := (tys.take sl.length).zip sl,
+        enumOf := ((tys.drop sl.length).take fd.enums.length).zip fd.enums,
+        typedefOf := ((tys.drop (sl.length + fd.enums.length)).take fd.typedefs.length).zip fd.typedefs } := by
+    simp only [registerGoTypes, hsl]
+  rw [hreg]
+  refine ⟨?_, ?_, ?_⟩
+  · intro i t h ht
+    obtain ⟨hi, rfl⟩ := List.getElem?_eq_some_iff.mp ht
+    have hk : i < (tys.take sl.length).length := by simp; omega
+    have := byGoType_zip (tys.take sl.length) sl i hk h (hn.sublist (List.take_sublist _ _))
+    simp only [List.getElem_take] at this
+    rw [this, List.getElem?_eq_getElem h]
+  · intro i t h ht
+    obtain ⟨hi, rfl⟩ := List.getElem?_eq_some_iff.mp ht
+    have hk : i < ((tys.drop sl.length).take fd.enums.length).length := by simp; omega
+    have := byGoType_zip ((tys.drop sl.length).take fd.enums.length) fd.enums i hk h
+      ((hn.sublist (List.drop_sublist _ _)).sublist (List.take_sublist _ _))
+    simp only [List.getElem_take, List.getElem_drop] at this
+    rw [this, List.getElem?_eq_getElem h]
+  · intro i t h ht
+    obtain ⟨hi, rfl⟩ := List.getElem?_eq_some_iff.mp ht
+    have hk : i < ((tys.drop (sl.length + fd.enums.length)).take fd.typedefs.length).length := by simp; omega
+    have := byGoType_zip ((tys.drop (sl.length + fd.enums.length)).take fd.typedefs.length) fd.typedefs i hk h
+      ((hn.sublist (List.drop_sublist _ _)).sublist (List.take_sublist _ _))
+    simp only [List.getElem_take, List.getElem_drop] at this
+    rw [this, List.getElem?_eq_getElem h]
+
+def tdA : TypedefDesc := { filepath := [109], ty := .mk [109] [83] .none .none none, alias := [65], annos := [], comments := [], extra := none }
+def tdB : TypedefDesc := { tdA with alias := [66] }
+
+/-- **negative witness 5**: `typedef S A` and `typedef S B` are Go aliases of the same type (token 7 twice): the
+registry answers `B` for both -/
+theorem gotype_alias_witness :
+    ((byGoType (registerGoTypes { (describe (emptyFile [109] [] [])) with typedefs := [tdA, tdB] } [7, 7]).typedefOf 7).map (·.alias)) =
+      some [66] := by decide
+
+end Props.C15
